@@ -97,3 +97,604 @@ RECIPES = [
     ("C14", "neutral", [], N, "    usetdof = uset.iloc[:, :0].reset_index().values\n    idof = []", "    usetdof = np.array(uset.index.tolist())\n    idof = []",
      "formrbe3: [id, dof] table built from the index"),
 ]
+
+# ================================================================== second hardening pass
+# Refactorings of a different kind than the stored patches C14-N1 .. N8 (each checked on 6176 calls of the anchored functions: byte-identical
+# results, except the einsum form which differs by round-off, 3e-16 relative), and, for every construct the interpreter of verifier/c14_np.py was
+# taught for them, a break placed *inside* the new form.  OLD_* are the regions of /repo they replace (one text replacement each).
+OLD_LOCAL = (
+    '    # treat as rectangular here; fix cylindrical & spherical below\n'
+    '    rb2 = np.zeros((np.shape(rb)))\n'
+    '    for j in range(ngrids):\n'
+    '        i = 6 * j\n'
+    '        t = uset.iloc[i + 3 : i + 6, 1:].values.T\n'
+    '        rb2[i : i + 3] = t @ rb[i : i + 3]\n'
+    '        rb2[i + 3 : i + 6] = t @ rb[i + 3 : i + 6]\n'
+    '\n'
+    '    # fix up cylindrical:\n'
+    '    grid_loc = np.arange(0, uset.shape[0], 6)\n'
+    '    cyl = (uset.loc[(slice(None), 2), "y"] == 2).values\n'
+    '    if cyl.any():\n'
+    '        grid_loc_cyl = grid_loc[cyl]\n'
+    '        for i in grid_loc_cyl:\n'
+    '            t = uset.iloc[i + 3 : i + 6, 1:].values.T\n'
+    '            loc = uset.iloc[i, 1:]\n'
+    '            loc2 = t @ (loc - uset.iloc[i + 2, 1:]).values\n'
+    '            if abs(loc2[1]) + abs(loc2[0]) > 1e-8:\n'
+    '                th = math.atan2(loc2[1], loc2[0])\n'
+    '                c = math.cos(th)\n'
+    '                s = math.sin(th)\n'
+    '                t = np.array([[c, s], [-s, c]])\n'
+    '                rb2[i : i + 2] = t @ rb2[i : i + 2]\n'
+    '                rb2[i + 3 : i + 5] = t @ rb2[i + 3 : i + 5]\n'
+    '\n'
+    '    # fix up spherical:\n'
+    '    sph = (uset.loc[(slice(None), 2), "y"] == 3).values\n'
+    '    if sph.any():\n'
+    '        grid_loc_sph = grid_loc[sph]\n'
+    '        for i in grid_loc_sph:\n'
+    '            t = uset.iloc[i + 3 : i + 6, 1:].values.T\n'
+    '            loc = uset.iloc[i, 1:]\n'
+    '            loc2 = t @ (loc - uset.iloc[i + 2, 1:]).values\n'
+    '            if abs(loc2[1]) + abs(loc2[0]) > 1e-8:\n'
+    '                phi = math.atan2(loc2[1], loc2[0])\n'
+    '                c = math.cos(phi)\n'
+    '                s = math.sin(phi)\n'
+    '                t = np.array([[c, s], [-s, c]])\n'
+    '                rb2[i : i + 2] = t @ rb2[i : i + 2]\n'
+    '                rb2[i + 3 : i + 5] = t @ rb2[i + 3 : i + 5]\n'
+    '                loc2[:2] = t @ loc2[:2]\n'
+    '            if abs(loc2[2]) + abs(loc2[0]) > 1e-8:\n'
+    '                th = math.atan2(loc2[0], loc2[2])\n'
+    '            else:\n'
+    '                th = 0\n'
+    '            c = math.cos(th)\n'
+    '            s = math.sin(th)\n'
+    '            t = np.array([[s, 0, c], [c, 0, -s], [0, 1, 0]])\n'
+    '            rb2[i : i + 3] = t @ rb2[i : i + 3]\n'
+    '            rb2[i + 3 : i + 6] = t @ rb2[i + 3 : i + 6]\n'
+    '\n'
+    '    # prepare final output:\n'
+    '    rbmodes[grid_rows] = rb2\n'
+    '    return rbmodes\n'
+    '\n'
+    '\n'
+    'def rbmove(rb, oldref, newref):'
+)
+OLD_GC = (
+    '    result = []\n'
+    '    T = None\n'
+    '    for igid in gid:\n'
+    '        if isgrid:\n'
+    '            xyz_basic = uset.loc[(igid, 1), "x":"z"].values\n'
+    '        else:  # is coord\n'
+    '            xyz_basic = igid\n'
+    '        if np.size(csys) == 1 and csys == 0:\n'
+    '            result.append(xyz_basic)\n'
+    '        else:\n'
+    '            if T is None:\n'
+    '                # get input "coordinfo" [ cid type 0; location(1x3); T(3x3) ]:\n'
+    '                if coordref is None:\n'
+    '                    coordref = {}\n'
+    '                coordinfo = mkusetcoordinfo(csys, uset, coordref)\n'
+    '                xyz_coord = coordinfo[1]\n'
+    '                T = coordinfo[2:]  # transform to basic for coordinate system\n'
+    '            g = T.T @ (xyz_basic - xyz_coord)\n'
+    '            ctype = coordinfo[0, 1].astype(np.int64)\n'
+    '            if ctype == 1:\n'
+    '                result.append(g)\n'
+    '            elif ctype == 2:\n'
+    '                R = math.hypot(g[0], g[1])\n'
+    '                theta = math.atan2(g[1], g[0])\n'
+    '                result.append(np.array([R, theta * 180 / math.pi, g[2]]))\n'
+    '            else:\n'
+    '                R = linalg.norm(g)\n'
+    '                phi = math.atan2(g[1], g[0])\n'
+    '                s = math.sin(phi)\n'
+    '                c = math.cos(phi)\n'
+    '                if abs(s) > abs(c):\n'
+    '                    theta = math.atan2(g[1] / s, g[2])\n'
+    '                else:\n'
+    '                    theta = math.atan2(g[0] / c, g[2])\n'
+    '                result.append(np.array([R, theta * 180 / math.pi, phi * 180 / math.pi]))\n'
+    '\n'
+    '    if gid.shape[0] == 1:\n'
+    '        return result[0]\n'
+    '    return np.array(result)\n'
+)
+OLD_RB = (
+    '    rbmodes = np.zeros((r * 6, 6))\n'
+    '    rbmodes[1::6, 3] = -grids[:, 2]\n'
+    '    rbmodes[2::6, 3] = grids[:, 1]\n'
+    '    rbmodes[::6, 4] = grids[:, 2]\n'
+    '    rbmodes[2::6, 4] = -grids[:, 0]\n'
+    '    rbmodes[::6, 5] = -grids[:, 1]\n'
+    '    rbmodes[1::6, 5] = grids[:, 0]\n'
+    '    for i in range(6):\n'
+    '        rbmodes[i::6, i] = 1.0\n'
+    '    return rbmodes\n'
+)
+OLD_FW = (
+    '    # tranformation from global to basic:\n'
+    '    Tg = coordinfo[2:]\n'
+    '    coordloc = coordinfo[1]\n'
+    '    if coordinfo[0, 1] == 1:\n'
+    '        location = coordloc + Tg @ a\n'
+    '    else:\n'
+    '        a2r = math.pi / 180.0\n'
+    '        if coordinfo[0, 1] == 2:  # cylindrical\n'
+    '            vec = np.array(\n'
+    '                [a[0] * math.cos(a[1] * a2r), a[0] * math.sin(a[1] * a2r), a[2]]\n'
+    '            )\n'
+    '        else:  # spherical\n'
+    '            s = math.sin(a[1] * a2r)\n'
+    '            vec = a[0] * np.array(\n'
+    '                [\n'
+    '                    s * math.cos(a[2] * a2r),\n'
+    '                    s * math.sin(a[2] * a2r),\n'
+    '                    math.cos(a[1] * a2r),\n'
+    '                ]\n'
+    '            )\n'
+    '        location = coordloc + Tg @ vec\n'
+    '    return location\n'
+)
+LOCAL_TABLE = (
+    '    # one pass: every grid is taken to its rectangular output system and\n'
+    '    # then handed to the fix-up registered for its type (if any)\n'
+    '    rb2 = np.zeros((np.shape(rb)))\n'
+    '    table = uset.iloc[:, 1:].values\n'
+    '    cstypes = uset["y"].values[1::6]\n'
+    '    for j, cstype in enumerate(cstypes):\n'
+    '        i = 6 * j\n'
+    '        t = table[i + 3 : i + 6].T\n'
+    '        rb2[i : i + 3] = t @ rb[i : i + 3]\n'
+    '        rb2[i + 3 : i + 6] = t @ rb[i + 3 : i + 6]\n'
+    '        fixup = _LOCAL_FRAME_FIXUPS.get(int(cstype))\n'
+    '        if fixup is not None:\n'
+    '            fixup(rb2, i, t @ (table[i] - table[i + 2]))\n'
+    '\n'
+    '    # prepare final output:\n'
+    '    rbmodes[grid_rows] = rb2\n'
+    '    return rbmodes\n'
+    '\n'
+    '\n'
+    'def _spin_about_z(rb2, i, loc2):\n'
+    '    """\n'
+    '    Rotate rows of grid starting at row `i` about local z by the azimuth\n'
+    '    of `loc2`; returns the 2x2 transform or None if on the axis.\n'
+    '    """\n'
+    '    if abs(loc2[1]) + abs(loc2[0]) > 1e-8:\n'
+    '        az = math.atan2(loc2[1], loc2[0])\n'
+    '        c = math.cos(az)\n'
+    '        s = math.sin(az)\n'
+    '        t = np.array([[c, s], [-s, c]])\n'
+    '        rb2[i : i + 2] = t @ rb2[i : i + 2]\n'
+    '        rb2[i + 3 : i + 5] = t @ rb2[i + 3 : i + 5]\n'
+    '        return t\n'
+    '    return None\n'
+    '\n'
+    '\n'
+    'def _fix_cylindrical(rb2, i, loc2):\n'
+    '    _spin_about_z(rb2, i, loc2)\n'
+    '\n'
+    '\n'
+    'def _fix_spherical(rb2, i, loc2):\n'
+    '    t = _spin_about_z(rb2, i, loc2)\n'
+    '    if t is not None:\n'
+    '        loc2[:2] = t @ loc2[:2]\n'
+    '    if abs(loc2[2]) + abs(loc2[0]) > 1e-8:\n'
+    '        th = math.atan2(loc2[0], loc2[2])\n'
+    '    else:\n'
+    '        th = 0\n'
+    '    c = math.cos(th)\n'
+    '    s = math.sin(th)\n'
+    '    t = np.array([[s, 0, c], [c, 0, -s], [0, 1, 0]])\n'
+    '    rb2[i : i + 3] = t @ rb2[i : i + 3]\n'
+    '    rb2[i + 3 : i + 6] = t @ rb2[i + 3 : i + 6]\n'
+    '\n'
+    '\n'
+    '_LOCAL_FRAME_FIXUPS = {2: _fix_cylindrical, 3: _fix_spherical}\n'
+    '\n'
+    '\n'
+    'def rbmove(rb, oldref, newref):'
+)
+LOCAL_ARRAYS = (
+    '    # per-grid data, all grids at once: blocks[g] is the 6 x 3 table block\n'
+    '    # of grid g: [location; id type 0; origin; 3 x 3 transform to basic]\n'
+    '    blocks = uset.iloc[:, 1:].values.reshape(ngrids, 6, 3)\n'
+    '    to_local = np.transpose(blocks[:, 3:, :], (0, 2, 1))\n'
+    '    offsets = blocks[:, 0, :] - blocks[:, 2, :]\n'
+    '    info = [\n'
+    '        SimpleNamespace(row=6 * g, kind=int(blocks[g, 1, 1]), t=to_local[g], loc2=to_local[g] @ offsets[g])\n'
+    '        for g in range(ngrids)\n'
+    '    ]\n'
+    '\n'
+    '    def rotate(first, nrows, t):\n'
+    '        # rotate `nrows` translation rows and `nrows` rotation rows of\n'
+    '        # the grid starting at row `first`\n'
+    '        parts = (slice(first, first + nrows), slice(first + 3, first + 3 + nrows))\n'
+    '        new = tuple(map(functools.partial(np.matmul, t), (rb2[p] for p in parts)))\n'
+    '        for p, rows in zip(parts, new):\n'
+    '            rb2[p] = rows\n'
+    '\n'
+    '    # treat as rectangular here; fix cylindrical & spherical below\n'
+    '    rb2 = rb.copy()\n'
+    '    for g in info:\n'
+    '        rotate(g.row, 3, g.t)\n'
+    '\n'
+    '    for g in info:\n'
+    '        if g.kind not in (2, 3):\n'
+    '            continue\n'
+    '        i, loc2 = g.row, g.loc2\n'
+    '        if abs(loc2[1]) + abs(loc2[0]) > 1e-8:\n'
+    '            az = math.atan2(loc2[1], loc2[0])\n'
+    '            c = math.cos(az)\n'
+    '            s = math.sin(az)\n'
+    '            t = np.array([[c, s], [-s, c]])\n'
+    '            rotate(i, 2, t)\n'
+    '            if g.kind == 3:\n'
+    '                loc2[:2] = t @ loc2[:2]\n'
+    '        if g.kind == 3:\n'
+    '            if abs(loc2[2]) + abs(loc2[0]) > 1e-8:\n'
+    '                th = math.atan2(loc2[0], loc2[2])\n'
+    '            else:\n'
+    '                th = 0\n'
+    '            c = math.cos(th)\n'
+    '            s = math.sin(th)\n'
+    '            rotate(i, 3, np.array([[s, 0, c], [c, 0, -s], [0, 1, 0]]))\n'
+    '\n'
+    '    # prepare final output:\n'
+    '    rbmodes[grid_rows] = rb2\n'
+    '    return rbmodes\n'
+    '\n'
+    '\n'
+    'def rbmove(rb, oldref, newref):'
+)
+LOCAL_RECURSION = (
+    '    # treat as rectangular here; fix cylindrical & spherical below\n'
+    '    rb2 = np.zeros((np.shape(rb)))\n'
+    '    first_rows = list(range(0, 6 * ngrids, 6))\n'
+    '    pending = first_rows[:]\n'
+    '    while pending:\n'
+    '        i = pending.pop(0)\n'
+    '        t = uset.iloc[i + 3 : i + 6, 1:].values.T\n'
+    '        rb2[i : i + 3], rb2[i + 3 : i + 6] = t @ rb[i : i + 3], t @ rb[i + 3 : i + 6]\n'
+    '    del pending\n'
+    '\n'
+    '    local_offset = lambda i: uset.iloc[i + 3 : i + 6, 1:].values.T @ (\n'
+    '        uset.iloc[i, 1:] - uset.iloc[i + 2, 1:]\n'
+    '    ).values\n'
+    '    off_axis = lambda a, b: abs(a) + abs(b) > 1e-8\n'
+    '    cstype = uset.loc[(slice(None), 2), "y"].values\n'
+    '    grid_loc = np.array(first_rows)\n'
+    '\n'
+    '    def spin(i, loc2):\n'
+    '        th = math.atan2(loc2[1], loc2[0])\n'
+    '        c, s = math.cos(th), math.sin(th)\n'
+    '        t = np.array([[c, s], [-s, c]])\n'
+    '        for lo in (i, i + 3):\n'
+    '            rb2[lo : lo + 2] = t @ rb2[lo : lo + 2]\n'
+    '        return t\n'
+    '\n'
+    '    # fix up cylindrical (recursively, one grid per call):\n'
+    '    def fix_cyl(rows):\n'
+    '        if len(rows) == 0:\n'
+    '            return\n'
+    '        head, *tail = rows\n'
+    '        if off_axis(*(loc2 := local_offset(head))[1::-1]):\n'
+    '            spin(head, loc2)\n'
+    '        fix_cyl(tail)\n'
+    '\n'
+    '    fix_cyl(grid_loc[cstype == 2])\n'
+    '\n'
+    '    # fix up spherical:\n'
+    '    todo = [int(i) for i in grid_loc[cstype == 3]]\n'
+    '    k = 0\n'
+    '    try:\n'
+    '        while k < len(todo):\n'
+    '            i = todo[k]\n'
+    '            loc2 = local_offset(i)\n'
+    '            if off_axis(loc2[1], loc2[0]):\n'
+    '                t = spin(i, loc2)\n'
+    '                loc2[:2] = t @ loc2[:2]\n'
+    '            th = 0\n'
+    '            th = math.atan2(loc2[0], loc2[2]) if off_axis(loc2[2], loc2[0]) else th\n'
+    '            c, s = math.cos(th), math.sin(th)\n'
+    '            t = np.array([[s, 0, c], [c, 0, -s], [0, 1, 0]])\n'
+    '            rb2[i : i + 3] = t @ rb2[i : i + 3]\n'
+    '            rb2[i + 3 : i + 6] = t @ rb2[i + 3 : i + 6]\n'
+    '            k += 1\n'
+    '        else:\n'
+    '            k = None\n'
+    '    finally:\n'
+    '        rbmodes[grid_rows] = rb2\n'
+    '    return rbmodes\n'
+    '\n'
+    '\n'
+    'def rbmove(rb, oldref, newref):'
+)
+LOCAL_CLASS = (
+    '    # treat as rectangular here; fix cylindrical & spherical below\n'
+    '    rb2 = np.zeros((np.shape(rb)))\n'
+    '    for j in range(ngrids):\n'
+    '        i = 6 * j\n'
+    '        t = uset.iloc[i + 3 : i + 6, 1:].values.T\n'
+    '        rb2[i : i + 3] = t @ rb[i : i + 3]\n'
+    '        rb2[i + 3 : i + 6] = t @ rb[i + 3 : i + 6]\n'
+    '\n'
+    '    grid_loc = np.arange(0, uset.shape[0], 6)\n'
+    '    cstype = uset.loc[(slice(None), 2), "y"].values\n'
+    '\n'
+    '    # fix up cylindrical:\n'
+    '    for i in grid_loc[cstype == 2]:\n'
+    '        _GridFrame(rb2, uset, i).azimuth(False)\n'
+    '\n'
+    '    # fix up spherical:\n'
+    '    for i in grid_loc[cstype == 3]:\n'
+    '        frame = _GridFrame(rb2, uset, i)\n'
+    '        frame.azimuth(True)\n'
+    '        frame.polar()\n'
+    '\n'
+    '    # prepare final output:\n'
+    '    rbmodes[grid_rows] = rb2\n'
+    '    return rbmodes\n'
+    '\n'
+    '\n'
+    'class _GridFrame:\n'
+    '    """\n'
+    '    Rows of one grid in the work array of :func:`rbgeom_uset`, with the\n'
+    '    rotations that take them to the local frame of the grid.\n'
+    '    """\n'
+    '\n'
+    '    tol = 1e-8\n'
+    '\n'
+    '    def __init__(self, rb2, uset, i):\n'
+    '        self.rb2 = rb2\n'
+    '        self.i = i\n'
+    '        t = uset.iloc[i + 3 : i + 6, 1:].values.T\n'
+    '        self.loc2 = t @ (uset.iloc[i, 1:] - uset.iloc[i + 2, 1:]).values\n'
+    '\n'
+    '    @property\n'
+    '    def off_axis(self):\n'
+    '        return abs(self.loc2[1]) + abs(self.loc2[0]) > self.tol\n'
+    '\n'
+    '    def _apply(self, n, t):\n'
+    '        i = self.i\n'
+    '        self.rb2[i : i + n] = t @ self.rb2[i : i + n]\n'
+    '        self.rb2[i + 3 : i + 3 + n] = t @ self.rb2[i + 3 : i + 3 + n]\n'
+    '\n'
+    '    def azimuth(self, update_loc):\n'
+    '        if not self.off_axis:\n'
+    '            return\n'
+    '        ang = math.atan2(self.loc2[1], self.loc2[0])\n'
+    '        c = math.cos(ang)\n'
+    '        s = math.sin(ang)\n'
+    '        t = np.array([[c, s], [-s, c]])\n'
+    '        self._apply(2, t)\n'
+    '        if update_loc:\n'
+    '            self.loc2[:2] = t @ self.loc2[:2]\n'
+    '\n'
+    '    def polar(self):\n'
+    '        loc2 = self.loc2\n'
+    '        if abs(loc2[2]) + abs(loc2[0]) > self.tol:\n'
+    '            th = math.atan2(loc2[0], loc2[2])\n'
+    '        else:\n'
+    '            th = 0\n'
+    '        c = math.cos(th)\n'
+    '        s = math.sin(th)\n'
+    '        self._apply(3, np.array([[s, 0, c], [c, 0, -s], [0, 1, 0]]))\n'
+    '\n'
+    '\n'
+    'def rbmove(rb, oldref, newref):'
+)
+LOCAL_EINSUM = (
+    '    # treat as rectangular here; fix cylindrical & spherical below\n'
+    '    # all grids at once: T[g] is the 3 x 3 transform to basic of grid g and\n'
+    '    # rb4[g, k] the 3 x 6 translation (k = 0) / rotation (k = 1) rows\n'
+    '    T = uset.iloc[:, 1:].values.reshape(ngrids, 6, 3)[:, 3:, :]\n'
+    '    rb4 = rb.reshape(ngrids, 2, 3, 6)\n'
+    '    rb2 = np.einsum("gji,gkjc->gkic", T, rb4).reshape(rb.shape)\n'
+    '\n'
+    '    # fix up cylindrical:\n'
+    '    grid_loc = np.arange(0, uset.shape[0], 6)\n'
+    '    cyl = (uset.loc[(slice(None), 2), "y"] == 2).values\n'
+    '    if cyl.any():\n'
+    '        grid_loc_cyl = grid_loc[cyl]\n'
+    '        for i in grid_loc_cyl:\n'
+    '            t = uset.iloc[i + 3 : i + 6, 1:].values.T\n'
+    '            loc = uset.iloc[i, 1:]\n'
+    '            loc2 = t @ (loc - uset.iloc[i + 2, 1:]).values\n'
+    '            if abs(loc2[1]) + abs(loc2[0]) > 1e-8:\n'
+    '                th = math.atan2(loc2[1], loc2[0])\n'
+    '                c = math.cos(th)\n'
+    '                s = math.sin(th)\n'
+    '                t = np.array([[c, s], [-s, c]])\n'
+    '                rb2[i : i + 2] = t @ rb2[i : i + 2]\n'
+    '                rb2[i + 3 : i + 5] = t @ rb2[i + 3 : i + 5]\n'
+    '\n'
+    '    # fix up spherical:\n'
+    '    sph = (uset.loc[(slice(None), 2), "y"] == 3).values\n'
+    '    if sph.any():\n'
+    '        grid_loc_sph = grid_loc[sph]\n'
+    '        for i in grid_loc_sph:\n'
+    '            t = uset.iloc[i + 3 : i + 6, 1:].values.T\n'
+    '            loc = uset.iloc[i, 1:]\n'
+    '            loc2 = t @ (loc - uset.iloc[i + 2, 1:]).values\n'
+    '            if abs(loc2[1]) + abs(loc2[0]) > 1e-8:\n'
+    '                phi = math.atan2(loc2[1], loc2[0])\n'
+    '                c = math.cos(phi)\n'
+    '                s = math.sin(phi)\n'
+    '                t = np.array([[c, s], [-s, c]])\n'
+    '                rb2[i : i + 2] = t @ rb2[i : i + 2]\n'
+    '                rb2[i + 3 : i + 5] = t @ rb2[i + 3 : i + 5]\n'
+    '                loc2[:2] = t @ loc2[:2]\n'
+    '            if abs(loc2[2]) + abs(loc2[0]) > 1e-8:\n'
+    '                th = math.atan2(loc2[0], loc2[2])\n'
+    '            else:\n'
+    '                th = 0\n'
+    '            c = math.cos(th)\n'
+    '            s = math.sin(th)\n'
+    '            t = np.array([[s, 0, c], [c, 0, -s], [0, 1, 0]])\n'
+    '            rb2[i : i + 3] = t @ rb2[i : i + 3]\n'
+    '            rb2[i + 3 : i + 6] = t @ rb2[i + 3 : i + 6]\n'
+    '\n'
+    '    # prepare final output:\n'
+    '    rbmodes[grid_rows] = rb2\n'
+    '    return rbmodes\n'
+    '\n'
+    '\n'
+    'def rbmove(rb, oldref, newref):'
+)
+GC_MATCH = (
+    '    memo = None\n'
+    '\n'
+    '    def csys_data():\n'
+    '        # resolved on first use only: (origin, transform to basic, type)\n'
+    '        nonlocal memo, coordref\n'
+    '        if memo is None:\n'
+    '            if coordref is None:\n'
+    '                coordref = {}\n'
+    '            coordinfo = mkusetcoordinfo(csys, uset, coordref)\n'
+    '            memo = coordinfo[1], coordinfo[2:], coordinfo[0, 1].astype(np.int64)\n'
+    '        return memo\n'
+    '\n'
+    '    def locations():\n'
+    '        for igid in gid:\n'
+    '            yield uset.loc[(igid, 1), "x":"z"].values if isgrid else igid\n'
+    '\n'
+    '    result = []\n'
+    '    for xyz_basic in locations():\n'
+    '        if np.size(csys) == 1 and csys == 0:\n'
+    '            result.append(xyz_basic)\n'
+    '            continue\n'
+    '        xyz_coord, T, ctype = csys_data()\n'
+    '        g = T.T @ (xyz_basic - xyz_coord)\n'
+    '        match int(ctype):\n'
+    '            case 1:\n'
+    '                result.append(g)\n'
+    '            case 2:\n'
+    '                R = math.hypot(g[0], g[1])\n'
+    '                theta = math.atan2(g[1], g[0])\n'
+    '                result.append(np.array([R, theta * 180 / math.pi, g[2]]))\n'
+    '            case _:\n'
+    '                R = linalg.norm(g)\n'
+    '                phi = math.atan2(g[1], g[0])\n'
+    '                s = math.sin(phi)\n'
+    '                c = math.cos(phi)\n'
+    '                if abs(s) > abs(c):\n'
+    '                    theta = math.atan2(g[1] / s, g[2])\n'
+    '                else:\n'
+    '                    theta = math.atan2(g[0] / c, g[2])\n'
+    '                result.append(np.array([R, theta * 180 / math.pi, phi * 180 / math.pi]))\n'
+    '\n'
+    '    if gid.shape[0] == 1:\n'
+    '        return result[0]\n'
+    '    return np.array(result)\n'
+)
+FW_MATCH = (
+    '    # tranformation from global to basic:\n'
+    '    Tg = coordinfo[2:]\n'
+    '    coordloc = coordinfo[1]\n'
+    '    a2r = math.pi / 180.0\n'
+    '    match coordinfo[0, 1]:\n'
+    '        case 1:\n'
+    '            vec = a\n'
+    '        case 2:  # cylindrical\n'
+    '            vec = np.array(\n'
+    '                [a[0] * math.cos(a[1] * a2r), a[0] * math.sin(a[1] * a2r), a[2]]\n'
+    '            )\n'
+    '        case _:  # spherical\n'
+    '            s = math.sin(a[1] * a2r)\n'
+    '            vec = a[0] * np.array(\n'
+    '                [\n'
+    '                    s * math.cos(a[2] * a2r),\n'
+    '                    s * math.sin(a[2] * a2r),\n'
+    '                    math.cos(a[1] * a2r),\n'
+    '                ]\n'
+    '            )\n'
+    '    return coordloc + Tg @ vec\n'
+)
+RB_ARRAYS = (
+    '    # unit translations / rotations for every grid ...\n'
+    '    rbmodes = np.tile(np.eye(6), (r, 1))\n'
+    '    # ... and the translations due to unit rotations, all grids at once:\n'
+    '    x, y, z = grids.T\n'
+    '    zero = np.zeros(r)\n'
+    '    skew = np.array([[zero, z, -y], [-z, zero, x], [y, -x, zero]])  # 3 x 3 x r\n'
+    '    rbmodes.reshape(r, 6, 6)[:, :3, 3:] = skew.transpose(2, 0, 1)\n'
+    '    return rbmodes\n'
+)
+
+
+LOCAL_ARRAYS2 = "    import functools\n\n" + LOCAL_ARRAYS
+def must(t, a, b):
+    assert t.count(a) == 1, (a, t.count(a))
+    return t.replace(a, b)
+RECIPES += [
+    ("C14", "neutral", [], N, OLD_LOCAL, LOCAL_TABLE, "rbgeom_uset: one pass over the grids, per-type fix-up from a module-level table of helpers defined below"),
+    ("C14", "break", ["C14-R2"], N, OLD_LOCAL, must(LOCAL_TABLE, "{2: _fix_cylindrical, 3: _fix_spherical}", "{2: _fix_cylindrical, 3: _fix_cylindrical}"),
+     "dispatch table sends spherical grids to the cylindrical fix-up"),
+    ("C14", "break", ["C14-R2"], N, OLD_LOCAL, must(LOCAL_TABLE, "fixup(rb2, i, t @ (table[i] - table[i + 2]))", "fixup(rb2, i, t @ (table[i] - table[i + 1]))"),
+     "dispatch-table form: local position measured from the id/type row instead of the origin row"),
+    ("C14", "neutral", [], N, OLD_LOCAL, LOCAL_ARRAYS2, "rbgeom_uset: per-grid data from whole-array steps (reshape, stacked transpose, batched @), SimpleNamespace records, partial + map"),
+    ("C14", "break", ["C14-R2"], N, OLD_LOCAL, must(LOCAL_ARRAYS2, "to_local = np.transpose(blocks[:, 3:, :], (0, 2, 1))", "to_local = np.transpose(blocks[:, 3:, :], (0, 1, 2))"),
+     "whole-array form: stacked transforms not transposed"),
+    ("C14", "break", ["C14-R2"], N, OLD_LOCAL, must(LOCAL_ARRAYS2, "parts = (slice(first, first + nrows), slice(first + 3, first + 3 + nrows))", "parts = (slice(first, first + nrows), slice(first + 3, first + 2 + nrows))"),
+     "whole-array form: rotation rows one short (shape error inside the closure)"),
+    ("C14", "neutral", [], N, OLD_LOCAL, LOCAL_RECURSION, "rbgeom_uset: recursion over the cylindrical grids, while/else with a cursor, walrus, lambdas, try/finally, del"),
+    ("C14", "break", ["C14-R2"], N, OLD_LOCAL, must(LOCAL_RECURSION, "        fix_cyl(tail)\n", "        fix_cyl(tail[1:])\n"), "recursive form skips every second cylindrical grid"),
+    ("C14", "break", ["C14-R2"], N, OLD_LOCAL, must(LOCAL_RECURSION, "off_axis = lambda a, b: abs(a) + abs(b) > 1e-8", "off_axis = lambda a, b: abs(a + b) > 1e-8"),
+     "lambda guard abs(a + b) (seeded C inside a lambda)"),
+    ("C14", "neutral", [], N, OLD_LOCAL, LOCAL_CLASS, "rbgeom_uset: a class per grid (methods, property, class attribute) defined below the function"),
+    ("C14", "break", ["C14-R2"], N, OLD_LOCAL, must(LOCAL_CLASS, "return abs(self.loc2[1]) + abs(self.loc2[0]) > self.tol", "return abs(self.loc2[1]) > self.tol"),
+     "class form: property off_axis looks at y only (seeded A inside a property)"),
+    ("C14", "break", ["C14-R2"], N, OLD_LOCAL, must(LOCAL_CLASS, "self.rb2[i + 3 : i + 3 + n] = t @ self.rb2[i + 3 : i + 3 + n]", "self.rb2[i + 3 : i + 3 + n] = t.T @ self.rb2[i + 3 : i + 3 + n]"),
+     "class form: rotational rows rotated the other way"),
+    ("C14", "neutral", [], N, OLD_LOCAL, LOCAL_EINSUM, "rbgeom_uset: rectangular step of all grids by one einsum over reshaped views"),
+    ("C14", "break", ["C14-R2"], N, OLD_LOCAL, must(LOCAL_EINSUM, '"gji,gkjc->gkic"', '"gij,gkjc->gkic"'), "einsum form: transform not transposed"),
+    ("C14", "neutral", [], N, OLD_GC, GC_MATCH, "getcoordinates: match on the type, generator of locations, coordinate system memoised in a nonlocal closure"),
+    ("C14", "break", ["C14-R1"], N, OLD_GC, must(GC_MATCH, "memo = coordinfo[1], coordinfo[2:], coordinfo[0, 1].astype(np.int64)", "memo = coordinfo[1], coordinfo[2:].T, coordinfo[0, 1].astype(np.int64)"),
+     "memoised form keeps the transposed transform and transposes again"),
+    ("C14", "break", ["C14-R1"], N, OLD_GC, must(GC_MATCH, "            case 2:\n                R = math.hypot", "            case 3:\n                R = math.hypot"),
+     "match form: cylindrical arm under case 3"),
+    ("C14", "neutral", [], N, OLD_FW, FW_MATCH, "_get_loc_a_basic: match on the type code"),
+    ("C14", "break", ["C14-R1"], N, OLD_FW, must(FW_MATCH, "        case 2:  # cylindrical", "        case 3:  # cylindrical"), "_get_loc_a_basic match form: cylindrical map for type 3"),
+    ("C14", "neutral", [], N, OLD_RB, RB_ARRAYS, "rbgeom: tile / eye and a (3, 3, n) skew stack written through a reshaped view"),
+    ("C14", "break", ["C14-R3"], N, OLD_RB, must(RB_ARRAYS, "skew = np.array([[zero, z, -y], [-z, zero, x], [y, -x, zero]])", "skew = np.array([[zero, -z, y], [z, zero, -x], [-y, x, zero]])"),
+     "array form: skew part with the opposite sign"),
+    ("C14", "break", ["C14-R3"], N, OLD_RB, must(RB_ARRAYS, "skew.transpose(2, 0, 1)", "skew.transpose(2, 1, 0)"), "array form: skew stack transposed"),
+    ("C14", "break", ["C14-R2"], N, "    ngrids = uset.shape[0] // 6\n", "    ngrids = uset.shape[0] / 6\n", "true division: range() of a float (TypeError on every table)"),
+    ("C14", "break", ["C14-R1"], N, "    result = []\n    T = None\n", "    result = []\n", "getcoordinates: T read before it is bound (UnboundLocalError)"),
+    ("C14", "break", ["C14-R2"], N, "        rb2[i + 3 : i + 6] = t @ rb[i + 3 : i + 6]\n\n", "        rb2[i + 3 : i + 6] = t @ rb[i + 2 : i + 6]\n\n", "rectangular step: four rows into three (shape error)"),
+    ("C14", "break", ["C14-R1"], N, "    elif gid.ndim == 2:  # user passed", "    elif gid.ndim == 3:  # user passed", "getcoordinates raises on a valid (n, 3) input"),
+    ("C14", "break", ["C14-R1"], N, "        if np.size(csys) == 1 and csys == 0:", "        if np.size(csys) == 1 and csys == 1:", "getcoordinates: basic system taken to be id 1"),
+    ("C14", "break", ["C14-R1"], N, 'xyz_basic = uset.loc[(igid, 1), "x":"z"].values', 'xyz_basic = uset.loc[(igid, 3), "x":"z"].values', "getcoordinates: grid location read from the origin row"),
+    ("C14", "break", ["C14-R2"], N, "def rbgeom_uset(uset, refpoint=np.array([[0, 0, 0]])):", "def rbgeom_uset(uset, refpoint=np.array([[0, 0, 1]])):", "rbgeom_uset: default reference off the origin"),
+    ("C14", "break", ["C14-R3"], N, "    grids = np.reshape(grids, (-1, 3))\n    r = np.shape(grids)[0]\n    if np.size(refpoint) == 1:", "    r = np.shape(grids)[0]\n    if np.size(refpoint) == 1:",
+     "rbgeom: a 3-vector is no longer reshaped to one grid"),
+]
+
+SORT_IDOF = "    pv = locate.mat_intersect(idof, usetdof, 2)[0]\n    idof = idof[pv]\n    wtdof = wtdof[pv]"
+NDIM_TEST = (
+    "    if gid.ndim == 1:  # user passed in a 1-d array\n        isgrid = True\n    elif gid.ndim == 2:  # user passed in a 2-d array w/ 3 col\n"
+    "        if gid.shape[1] != 3:\n            raise ValueError(\n"
+    "                f\"`gid` is 2d but does not have 3 columns (it has {gid.shape[1]})\"\n            )\n        isgrid = False\n"
+    "    else:  # user passed in a higher dimension array\n        raise ValueError(f\"`gid` is more than 2d (it has {gid.ndim} dimensions)\")\n")
+NDIM_MATCH = (
+    "    match gid.ndim:\n        case 1:  # user passed in a 1-d array\n            isgrid = True\n        case 2:  # user passed in a 2-d array w/ 3 col\n"
+    "            if gid.shape[1] != 3:\n                raise ValueError(\n"
+    "                    f\"`gid` is 2d but does not have 3 columns (it has {gid.shape[1]})\"\n                )\n            isgrid = False\n"
+    "        case _:  # user passed in a higher dimension array\n            raise ValueError(f\"`gid` is more than 2d (it has {gid.ndim} dimensions)\")\n")
+RECIPES += [
+    ("C14", "neutral", [], N, SORT_IDOF,
+     "    def uset_order(dof, ref=usetdof):\n        return locate.mat_intersect(dof, ref, 2)[0]\n\n    pv = uset_order(idof)\n    idof = idof[pv]\n    wtdof = wtdof[pv]",
+     "formrbe3: the ordering step wrapped in a closure with the reference table as default argument"),
+    ("C14", "break", ["C14-R4"], N, SORT_IDOF,
+     "    def uset_order(dof, ref=None):\n        if ref is None:\n            rows = mkdofpv(uset, \"p\", sorted(set(dof[:, 0].tolist())))[0]\n"
+     "            ref = uset.iloc[rows, :0].reset_index().values\n        return locate.mat_intersect(dof, ref, 2)[0]\n\n"
+     "    pv = uset_order(idof)\n    idof = idof[pv]\n    wtdof = wtdof[pv]",
+     "formrbe3: closure orders against an id-sorted reduced table (seeded D inside a closure)"),
+    ("C14", "neutral", [], N, NDIM_TEST, NDIM_MATCH, "getcoordinates: shape test of gid as a match statement"),
+    ("C14", "break", ["C14-R1"], N, NDIM_TEST, NDIM_MATCH.replace("        case 2:  # user passed in a 2-d array w/ 3 col\n", "        case 3:  # user passed in a 2-d array w/ 3 col\n"),
+     "getcoordinates: match form rejects the valid (n, 3) input"),
+]
